@@ -57,11 +57,18 @@ def bump(I, name, by=1):
     return I.ghost[name]
 
 
-def stream(I):
+def stream(I, preset=()):
+    """the token source: first the preset tokens (if any), then arbitrary tokens"""
     st = Opaque('token-stream')
+    pending = list(preset)
 
     def nxt(I_, o, a, k):
         bump(I_, 'pos')
+        n = to_term(I_.ghost['pos'], 'int')
+        if pending and hasattr(n, 'as_long') and z3.is_int_value(z3.simplify(n)):
+            ix = z3.simplify(n).as_long() - 1
+            if 0 <= ix < len(pending):
+                return pending[ix]
         return abstract_token(I_, 'tok%d' % I_.fresh_n)
     st.methods['__next__'] = nxt
     return st
@@ -73,12 +80,13 @@ def seg(I, base, lo=0, elem=None, tag=''):
     return Segment(base, z3.IntVal(0), n.t, elem, tag or base)
 
 
-def parser(b, first_token=None, in_routine=None, in_matrix=None, loop_depth='any'):
-    """a real Parser (real constructor) placed in the middle of an arbitrary parse"""
+def parser(b, first_token=None, in_routine=None, in_matrix=None, loop_depth='any', then=()):
+    """a real Parser (real constructor) placed in the middle of an arbitrary parse; `then`: the tokens that follow the
+    current one before the stream becomes arbitrary"""
     I = b.I
     lib.injection_reset(b)
     Pr = b.new(('bardolph.parser.parse', 'Parser'))
-    Pr.attrs['_tokens'] = stream(I)
+    Pr.attrs['_tokens'] = stream(I, then)
     Pr.attrs['_current_token'] = first_token if first_token is not None else abstract_token(I, 'tok0')
     cg = Pr.attrs['_code_gen']
     cg.attrs['_code'] = PyList([seg(I, 'code_before')])
